@@ -201,3 +201,14 @@ Example C07_zero_argument_may_be_stricter :
   length (fnodes (snd r1)) = 3%nat /\
   length (fnodes (snd (prune (fst r1) 0 (0, 1) [] (snd r1)))) = 1%nat.   (* 0 inherits 2: prunes *)
 Proof. vm_compute. split; reflexivity. Qed.
+
+(* prune() straight after compute with the criteria of the computation (min_delta = 0) is the
+   identity - no hypothesis left to the caller (PruneSame.v; see props/C08.v for the reason
+   min_delta > 0 is excluded) *)
+From Dendro Require Import PruneSame.
+Theorem C07_prune_with_the_criteria_of_compute_changes_nothing :
+  forall shape per vals minv cs,
+    Forall (fun n => 0 < n) shape -> nodelta cs = true ->
+    prune_struct cs (compute shape (AdjGrid per) vals minv cs) = compute shape (AdjGrid per) vals minv cs.
+Proof. exact grid_prune_same. Qed.
+Print Assumptions C07_prune_with_the_criteria_of_compute_changes_nothing.
